@@ -519,6 +519,23 @@ def gen(tier, rng):
             yield cse
     yield sx([9, 3, 2, 0, 0, [0, 2, 2, [1, 2, 3]], 0, 3])
     yield sx([9, 3, 2, 0, 0, [0, 0, 2, []], 0, 3])
+    # ---- wave 4 (deterministic, draws nothing from rng): the OWNING iterators - `from` and
+    # `from_numeric`, plain and WithIndex, both orders - over EVERY empty / degenerate source of C10's
+    # family (tools/props/c10.py: 0xN / Nx0 / 0x0 / clipped MatrixRange, reversed, range of a range;
+    # every part of partitions with boundaries at 0 / at the end, degenerate quadrant splits) to
+    # exhaustion + 3 calls, and the tensor owning iterators over one-element / refused sources
+    from tools.props import c10 as _c10
+    for src in _c10._mat_sources():
+        for order in (2, 3):
+            for wi in (0, 1):
+                yield sx([9, 3, order, 3, wi, src, 0, 9])
+    for rows, cols, data, leaf in _c10._leaves():
+        for order in (2, 3):
+            for wi in (0, 1):
+                yield sx([9, 6, order, 3, wi, rows, cols, data, leaf, [], 0, rows * cols + 3])
+    for src in _c10._tensor_sources():
+        for wi in (0, 1):
+            yield sx([9, 2, 3, wi, src, 9])
 
 
 def nontrivial(case, model_out):
